@@ -37,18 +37,19 @@ MODELLED_NOT_VERIFIED = [
     "C12: the interpreter recursion limit (deep caterpillars raise RecursionError: known finding) is not modelled",
 ]
 EXPLANATION = ("Theorems about the fuelled heap model of Annotable.__deepcopy__ / Taxon / TaxonNamespace / AnnotationSet copying "
-               "with deep_copy_annotations_from and its re-targeting, for every heap (cycles allowed), every pre-seeded memo and every "
-               "fuel: copy_fresh, copy_memo_injective (memo targets exist; distinct sources get distinct copies), copy_no_write "
-               "(+ _deep, _scoped), copy_disjoint / copy_shares_only_preseeded / deep_copy_shares_nothing, frame_source_write / "
-               "frame_copy_write (one later write) and frame_source_history / frame_copy_history (every sequence of later overwrites and "
-               "allocations on one side leaves the other side's objects unchanged); about the function the driver runs: route_spec "
-               "(copyRoute = preseed, which changes no exported object and seeds only listed targets or new taxa, then cpVal with fuel "
-               "size+1), route_no_write, route_shares_only_preseeded; extract_leaves, extract_suppresses, extract_nosup_attrs, "
-               "extract_sup_labels. PARTIAL: copy_independent_partial (copy_iso = field-wise equality of copy and source under the memo, "
-               "and fuel sufficiency, are not proved: every theorem is conditional on the run returning ok, which the driver reports per "
-               "case; equality is covered by the per-case comparison with the real copy and by the fingerprint oracle only) and "
-               "retarget_step_partial (the re-targeting step, not the final state). Length sums under suppression are checked by the "
-               "oracle only.")
+               "with deep_copy_annotations_from and its re-targeting, for every heap (cycles allowed) and every pre-seeded memo: "
+               "copy_total / route_total (fuel sufficiency: on a well-formed exported heap the copy and the driver's copyRoute return "
+               "ok, so all other theorems apply unconditionally; the harness checks well-formedness of every exported heap), "
+               "copy_iso_partial / copy_root_corresponds (equality, object level: every non-pre-seeded memo entry pairs a source "
+               "object with a copy of the same class and kind whose attributes are exactly the memo-images of the source's, none left "
+               "half-built), copy_fresh, copy_memo_injective, copy_no_write (+ _deep, _scoped), copy_disjoint / "
+               "copy_shares_only_preseeded / deep_copy_shares_nothing, frame_source_write / frame_copy_write, frame_source_history / "
+               "frame_copy_history (every sequence of later overwrites and allocations on one side leaves the other side unchanged), "
+               "fuel_mono / fuel_result_unique, route_spec / route_no_write / route_shares_only_preseeded (about the function the driver "
+               "runs), extract_leaves, extract_suppresses, extract_nosup_attrs, extract_sup_labels. PARTIAL: copy_iso_partial says "
+               "nothing about the membership and order of annotation sets nor about attribute order (covered by the per-case "
+               "comparison with the real copy and the fingerprint oracle); retarget_step_partial is about the re-targeting step, not "
+               "the final state; copy_independent_partial is the older bundle. Length sums under suppression: oracle only.")
 
 # ---------------------------------------------------------------------------------------------------------------------
 # object graph export (the REAL graph: every __dict__ attribute, list, dict, set, tuple), ids renumbered
@@ -1237,6 +1238,12 @@ def run_case(ctx, dendropy, spec, pending=None, report=True):
             g, _ = export(dendropy, [ns2], graph=g)
         n_src = len(g.objs)
         src_objs = list(g.objs)
+        wfp = wellformed_problem(src_objs)
+        if wfp is not None:
+            ctx.count("exported_heap_not_wellformed")
+            ctx.note("exported heap outside the hypotheses of copy_total/copy_iso_partial (%s): %s" % (wfp, json.dumps(spec)))
+        else:
+            ctx.count("exported_heap_wellformed")
         g_ns, _ = export(dendropy, [ns_src])
         ns_ids = g_ns.mutable_ids(dendropy)
         fp_src = J(view(src))
@@ -1511,6 +1518,35 @@ def render_thin(tree):
         for c in reversed(nd._child_nodes):
             stack.append((c, 0))
     return "".join(out)
+
+
+def wellformed_problem(objs):
+    """hypotheses `WellFormed` + `hann` of the Lean theorems, on the exported heap: references stay inside, annotation sets have
+    a target and an item list, no annotation set is the target of another, `_annotations` of an annotation-aware object refers
+    to an annotation set"""
+    n = len(objs)
+
+    def items_ok(k):
+        d = dict(objs[k][2])
+        v = d.get("_item_list")
+        return v is not None and v[0] == "r" and v[1] < n
+    for i, (kind, cls, fs) in enumerate(objs):
+        d = dict(fs)
+        for name, v in fs:
+            if v[0] == "r" and not (0 <= v[1] < n):
+                return "dangling reference in object %d" % i
+        if kind == "S":
+            if "target" not in d or not items_ok(i):
+                return "annotation set %d without target or item list" % i
+            t = d["target"]
+            if t[0] == "r" and objs[t[1]][0] == "S":
+                return "annotation set %d has an annotation set as target" % i
+        if kind in ("A", "X", "N"):
+            a = d.get("_annotations")
+            if a is not None and a[0] == "r":
+                if objs[a[1]][0] != "S" or not items_ok(a[1]):
+                    return "_annotations of object %d is not an annotation set with an item list" % i
+    return None
 
 
 def model_line(rclass, rootval, pre, src_objs):
